@@ -291,6 +291,57 @@ example : harmonize exF ⟨1, none, none, some (-1), some (1/100)⟩ (St.usedAtt
     (GState.usedAttrs ⟨⟨0, 5⟩, none, some ⟨3, 33/10⟩, none⟩) =
     .ok (⟨1, none, some (313/100), some 1, none⟩, [Fld.time_step, Fld.velocity, Fld.orientation]) := by decide +kernel
 
+/-! ### which goal states `GoalRegion` admits (`_validate_goal_state`, `state_list` setter; tied by translation in T08) -/
+
+theorem validateLoop_iff (st : RawG) : ∀ (l : List Fld),
+    validateLoop st l = .ok () ↔ ∀ f ∈ l, f ∈ validFields ∧ ∃ c, st.lookup f = some c ∧ isInst c (requiredCls f) = true
+  | [] => by simp [validateLoop]
+  | f :: rest => by
+    have ih := validateLoop_iff st rest
+    unfold validateLoop
+    by_cases hv : f ∈ validFields
+    · cases hl : st.lookup f with
+      | none => simp [hv, hl]
+      | some c => by_cases hc : isInst c (requiredCls f) = true <;> simp [hv, hl, hc, ih]
+    · simp [hv]
+
+/-- C08 (g): a goal state is admitted exactly when `time_step` is set, every set attribute is one of time_step / position /
+    velocity / orientation, the position is a Shape, the orientation an AngleInterval and time_step / velocity are Intervals
+    (an AngleInterval is one). -/
+theorem C08_validate_iff (st : RawG) :
+    validateGoalState st = .ok () ↔
+      (∃ c, st.lookup Fld.time_step = some (some c)) ∧
+      ∀ f ∈ st.used, f ∈ validFields ∧ ∃ c, st.lookup f = some c ∧ isInst c (requiredCls f) = true := by
+  unfold validateGoalState
+  cases hl : st.lookup Fld.time_step with
+  | none => simp
+  | some c => cases c <;> simp [validateLoop_iff]
+
+theorem validateAll_iff : ∀ (l : List RawG), validateAll l = .ok () ↔ ∀ st ∈ l, validateGoalState st = .ok ()
+  | [] => by simp [validateAll]
+  | st :: rest => by
+    have ih := validateAll_iff rest
+    unfold validateAll
+    cases hv : validateGoalState st with
+    | error e => simp [hv]
+    | ok u => simp [ih, hv]
+
+/-- C08 (h): the `state_list` setter stores the list unchanged, and exactly when every goal state is admitted. -/
+theorem C08_setStateList_iff (l l' : List RawG) :
+    setStateList l = .ok l' ↔ l' = l ∧ ∀ st ∈ l, validateGoalState st = .ok () := by
+  rw [← validateAll_iff]
+  unfold setStateList
+  cases validateAll l with
+  | error e => simp [Except.map]
+  | ok u => simp [Except.map, eq_comm]
+
+/-- non-vacuity: time + position(Shape) + orientation(AngleInterval) is admitted; a velocity given as a plain number class is not;
+    a goal orientation given as a plain Interval is not. -/
+example : validateGoalState [(Fld.time_step, some .interval), (Fld.position, some .shape), (Fld.orientation, some .angleInterval),
+    (Fld.velocity, none)] = .ok () := by decide
+example : validateGoalState [(Fld.time_step, some .interval), (Fld.velocity, some .other)] = .error .value := by decide
+example : validateGoalState [(Fld.time_step, some .interval), (Fld.orientation, some .interval)] = .error .value := by decide
+
 /-! ### the goal region after a pure translation (`translate_rotate(t, 0)`) -/
 
 theorem reachedOne_translate (F : Fns) (τ ε : Rat) (t : CR.Geom.Pt) (g : GState) (s : St) :
